@@ -18,10 +18,19 @@ class Timeout(Exception):
     pass
 
 
+_TIMEOUTS = [0]
+
+
 @contextlib.contextmanager
 def time_limit(seconds):
-    """Bound one implementation call (a non-terminating loop becomes error kind 'Timeout')."""
+    """Bound one implementation call (a non-terminating loop becomes error kind 'Timeout').
+    After two timeouts in the same process the budget drops to 20 s (the generators keep legitimate
+    calls below ~10 s), so that shrinking a non-terminating case stays affordable."""
+    if _TIMEOUTS[0] >= 2:
+        seconds = min(seconds, 20)
+
     def handler(signum, frame):
+        _TIMEOUTS[0] += 1
         raise Timeout('no result after %ss' % seconds)
     old = _signal.signal(_signal.SIGALRM, handler)
     _signal.setitimer(_signal.ITIMER_REAL, seconds)
@@ -328,3 +337,61 @@ def close(a, b, scale):
 
 def fr_list(v):
     return [float(t) for t in v]
+
+
+# ---------------------------------------------------------------------------------------------
+# classic sift: real call, manual peeling with the public get_next_imf (extractor table), SIFT op
+
+def sift_kwargs(o, thr, cap):
+    kw = {'imf_opts': imf_kwargs(o), 'envelope_opts': env_kwargs(o), 'extrema_opts': ext_kwargs(o)}
+    if thr is not None:
+        kw['sift_thresh'] = thr
+    if cap is not None:
+        kw['max_imfs'] = cap
+    return kw
+
+
+def call_sift(x, o, thr, cap):
+    import emd
+    xa = np.array(x, dtype=float)
+    xa.setflags(write=False)
+    return emd.sift.sift(xa, **sift_kwargs(o, thr, cap))
+
+
+def peel(x, o, layers, with_paths=False):
+    """Manual peeling with the real public get_next_imf: r_0 = x, (c_k, f_k) = get_next_imf(r_k),
+    r_{k+1} = x - sum_{j<=k} c_j (same float expression as sift()).  Returns rows
+    [(r_k, c_k | None, flag_k, error kind | None, path)]; stops after a raising layer."""
+    X = np.array(x, dtype=float)[:, None]
+    rows = []
+    r = X.copy()
+    imf = None
+    for k in range(layers):
+        path = None
+        if with_paths:
+            try:
+                ref = reference(r[:, 0], o, extra=0)
+                e = ref['exit']
+                path = 'truncated' if e is None else '%s@%s' % (e[0], '0' if e[1] == 0 else '>=1')
+            except Exception:  # noqa
+                path = 'envelope-raises'
+        try:
+            c, f = call_gni(r[:, 0], o)
+        except Exception as e:  # noqa
+            from common.framework import err_kind
+            rows.append((r[:, 0].copy(), None, False, err_kind(e), path))
+            break
+        c = np.asarray(c)
+        rows.append((r[:, 0].copy(), c[:, 0].copy(), bool(f), None, path))
+        imf = c if imf is None else np.concatenate((imf, c), axis=1)
+        r = X - imf.sum(axis=1)[:, None]
+    return rows
+
+
+def sift_op(x, thr, cap, rows):
+    args = {'thr': thr, 'cap': 'none' if cap is None else str(int(cap)), 'tol': TOL * scale_of(x)}
+    flags = [1 if (f and c is not None) else 0 for _, c, f, _, _ in rows]
+    vecs = [list(map(float, x)), flags]
+    for r, c, f, err, _ in rows:
+        vecs += [list(map(float, r)), None if c is None else list(map(float, c))]
+    return proto.op('SIFT', args, vecs)
